@@ -9,7 +9,7 @@ PROP = "C12"
 LEVEL = "model_checking"
 ANCHOR_PREFIXES = ["element::SvgElement::handle_containment", "element::SvgElement::inscribed_bbox", "element::SvgElement::position_from_bbox", "position::BoundingBox", "position::TrblLength",
                    "position::Length", "position::strp_length", "context::"]
-BOUNDS = ("container in {rect, circle, ellipse}; surround / inside lists of 1-3 references to {rect, circle, ellipse, line, g, another surround}; margin with 0-4 values, absolute symbolic "
+BOUNDS = ("container in {rect, circle, ellipse}; surround / inside lists of 1-3 references (inside: also three references of different kinds) to {rect, circle, ellipse, line, g, another surround}; margin with 0-4 values, absolute symbolic "
           "(either sign for rect containers, >= 0 for circle/ellipse) or percent in {25%, 50%}; positions k/2 in [-128,128], sizes integers in [0,64], margins k/2 in [-16,16]; "
           "circle/ellipse enclosure decided over the real hull of the domain with relative slack 1.001 on r^2 (single-precision sqrt(2) factor)")
 ASSUMPTIONS = ["margin values map to top/right/bottom/left in CSS order (docs: attribute-ref.md#margin)", "percent margins are taken of max(width,height) of the union for surround and of min(width,height) of the intersection for inside (doc comment in position.rs; the property leaves the base to the documentation)",
